@@ -80,10 +80,12 @@ def compile_ir(src, tag=None, extra=(), defs=()):
         raise Inconclusive('clang failed on %s:\n%s' % (src, se[-3000:]))
     return open(out).read(), dt
 
-def native_build(srcs, tag, extra=(), defs=(), san=False, opt='-O1', libs=()):
+def native_build(srcs, tag, extra=(), defs=(), san=False, opt='-O1', libs=(), cxx='g++'):
     """g++ build of a harness TU (+driver) against the real sources, for encoder validation and replay."""
     out = os.path.join(workdir(), tag + '.bin')
-    cmd = ['g++', '-std=c++17', opt, '-w', '-DNDEBUG', '-ffp-contract=off', '-DVERIF_REPO="%s"' % REPO] + ['-I' + d for d in include_dirs()] + ['-D' + d for d in defs]
+    cmd = [cxx, '-std=c++17', opt, '-w', '-DNDEBUG', '-ffp-contract=off', '-DVERIF_REPO="%s"' % REPO]
+    cmd += ['-I' + d for d in include_dirs()] + ['-D' + d for d in defs]
+    if cxx.startswith('clang'): cmd += ['-fno-vectorize', '-fno-slp-vectorize', '-fno-unroll-loops', '-DEIGEN_DONT_VECTORIZE']
     if san: cmd += ['-fsanitize=address,undefined', '-fno-omit-frame-pointer', '-g']
     cmd += list(extra) + list(srcs) + ['-o', out] + list(libs)
     rc, so, se, dt = _run(cmd)
@@ -180,6 +182,8 @@ class Check:
         unrep = [v for v in s.viol if not v['reproduced']]
         for v in real: print('VIOLATION property=%s replay=%s   # %s' % (s.pid, v['replay'], v['what']))
         print('%s %s: %d obligations, %d unsat, %d sat, %d unknown, %d witnesses, wall %.1fs' % (s.pid, s.tier, n_obl, n_unsat, n_sat, n_unk, len(s.witness), wall))
+        if n_sat and not s.viol and not s.known_hit:
+            s.inconclusive.append('%d obligation(s) refuted by the solver but not turned into a replayed violation by the check' % n_sat)
         if real: return 1
         if unrep:
             for v in unrep: print('ENCODER-ERROR: counterexample did not reproduce on the real code: %s' % v['what'])
@@ -217,6 +221,9 @@ def main_wrapper(pid, fn, level='other'):
         fn(ck, a.tier)
     except Inconclusive as e:
         ck.inconc(str(e))
+    except Exception as e:
+        if type(e).__name__ in ('Unsupported', 'TermCap'): ck.inconc('%s: %s' % (type(e).__name__, e))
+        else: raise
     except EncoderError as e:
         print('ENCODER-ERROR: %s' % e); ck.inconc('encoder error: %s' % e)
         ck.finish(); return 3
